@@ -737,6 +737,21 @@ def p_config_of(ex, st, args, kwargs, node):
     yield ex.wrap(spec_quote.config_of(args[0].obj)), st
 
 
+def p_code_at(ex, st, args, kwargs, node):
+    s, i = args
+    n = s.len()
+    ok = z3.And(i.t >= 0, i.t < n)
+    for kind, s2 in ex.raise_or_oblige(st, IndexError, ok, "index-in-range", node):
+        if kind == "ok":
+            if s.conc is not None and i.conc() is not None:
+                c = s.conc[i.conc()]
+                yield VInt(c if isinstance(c, int) else ord(c)), s2
+            else:
+                yield VInt(s.a[V.name_term(s2.ctx, s.lo + i.t, "ca")]), s2
+        else:
+            yield _raised()(VExc(IndexError)), s2
+
+
 SPEC_PRIMS = {
     "hash_parts": p_hash_parts,
     "CUT": p_cut,
@@ -814,6 +829,7 @@ def install(ex):
     try:
         from contracts import spec_quote as _sq
         add(_sq.config_of, "spec.config_of", p_config_of)
+        add(_sq.code_at, "spec.code_at", p_code_at)
         add(_sq.component_alphabet, "spec.component_alphabet",
             lambda ex, st, args, kwargs, node: iter([(ex.wrap(_sq.component_alphabet(args[0].obj)), st)]))
     except ImportError:
